@@ -305,4 +305,36 @@ theorem apiGate_ok (cfg : Cfg) (e : Env) (hlower : e.lower = cfg.pm.lower)
             rw [hua'] at hadm
             simp [hua', judgeApi, hop', ← hwho, hq', isAdmin, ← hadm]
 
+/-! ## the client's own `user_name_in_token` header has no influence once the interceptor replaces it -/
+
+theorem streamInterceptorH_eq (cfg : Cfg) (h : cfg.identityReplaces = true) (w : World) (path : List Char)
+    (tok : TokRef) (hdr : List (List Char)) :
+    streamInterceptorH cfg w path tok hdr = streamInterceptor cfg w path tok := by
+  unfold streamInterceptorH streamInterceptor
+  simp only [identitySeen_replaces cfg h]
+
+theorem httpStreamH_eq (cfg : Cfg) (h : cfg.identityReplaces = true) (w : World) (m : HMethod) (path : List Char)
+    (tok : TokRef) (hdr : List (List Char)) :
+    httpStreamH cfg w m path tok hdr = httpStream cfg w m path tok := by
+  unfold httpStreamH httpStream
+  rw [streamInterceptorH_eq cfg h]
+
+theorem apiGateH_eq (cfg : Cfg) (h : cfg.identityReplaces = true) (w : World) (m : HMethod) (isGet : Bool)
+    (path : List Char) (tok : TokRef) (hdr : List (List Char)) :
+    apiGateH cfg w m isGet path tok hdr = apiGate cfg w m isGet path tok := by
+  unfold apiGateH apiGate
+  simp only [identitySeen_replaces cfg h]
+
+theorem wsUpgradeH_eq (cfg : Cfg) (h : cfg.identityReplaces = true) (w : World) (path : List Char)
+    (tok : TokRef) (sub : WsSub) (hdr : List (List Char)) :
+    wsUpgradeH cfg w path tok sub hdr = wsUpgrade cfg w path tok sub := by
+  unfold wsUpgradeH wsUpgrade
+  rw [streamInterceptorH_eq cfg h]
+
+/-- without a client header the two agree whatever the interceptor does -/
+theorem httpStreamH_nil (cfg : Cfg) (w : World) (m : HMethod) (path : List Char) (tok : TokRef) :
+    httpStreamH cfg w m path tok [] = httpStream cfg w m path tok := by
+  unfold httpStreamH httpStream streamInterceptorH streamInterceptor
+  simp only [identitySeen_nil]
+
 end IpcHub.Auth
